@@ -3,7 +3,7 @@
    rationals travel as numerator, denominator. *)
 From Coq Require Import List NArith ZArith QArith Qcanon Bool.
 From ACB Require Import Base.Outcome Base.QcExtra Base.Fit Base.Arith
-     Model.Rates Model.RatesCache Model.CrashFs Model.RatesFail.
+     Model.Rates Model.RatesCache Model.CrashFs Model.RatesFail Model.RatesJson.
 Import ListNotations.
 Local Open Scope Z_scope.
 
@@ -216,6 +216,42 @@ Definition run_histf : P (list Z) :=
         | Panic _ => [2]
         end).
 
+(* entry 8: a JSON document (tree: 0 null | 1 bool | 2 number token | 3 string |
+   4 array | 5 object with members in document order) through parse_doc.
+   entry 9: a number token: parts, Display text, Decimal *)
+Fixpoint pjv (fuel : nat) : P jv :=
+  match fuel with
+  | O => fun _ => None
+  | S k =>
+      t <~ pZ ;;
+      match t with
+      | 0 => pret JNull
+      | 1 => b <~ pbool ;; pret (JBool b)
+      | 2 => s <~ pbytes ;; pret (JNum s)
+      | 3 => s <~ pbytes ;; pret (JStr s)
+      | 4 => l <~ plist (pjv k) ;; pret (JArr l)
+      | _ => l <~ plist (key <~ pbytes ;; v <~ pjv k ;; pret (key, v)) ;; pret (JObj l)
+      end
+  end.
+Definition run_doc : P (list Z) :=
+  fun l =>
+    (v <~ pjv (length l) ;;
+     pret (match parse_doc v with
+           | None => [0]
+           | Some (Ok rs) => 1 :: odrates rs
+           | Some (Rej _) => [2]
+           | Some (Panic _) => [3]
+           end)) l.
+Definition run_num : P (list Z) :=
+  t <~ pbytes ;;
+  pret (match lex_number t with
+        | None => [0]
+        | Some (neg, n, e) =>
+            [1; if neg then 1 else 0; n; e]
+              ++ (match number_text neg n e with None => [0] | Some s => 1 :: obytes s end)
+              ++ (match to_decimal (JNum t) with None => [0] | Some q => 1 :: oQ q end)
+        end).
+
 Definition dispatch (l : list Z) : list Z :=
   match l with
   | mode :: r =>
@@ -228,6 +264,8 @@ Definition dispatch (l : list Z) : list Z :=
                | 5 => run_div
                | 6 => run_proc
                | 7 => run_histf
+               | 8 => run_doc
+               | 9 => run_num
                | _ => fun _ => None
                end in
       match p r with
